@@ -417,6 +417,33 @@ def rule_m6(F):
             r.bad(fn, "element loop not behind a length comparison", relfile(b.file), b.blocks[h]["term"].get("line", b.line),
                   "the elements are compared without a preceding comparison of the two lengths %s: a list that is a proper prefix of the other compares equal (and `==` is no longer symmetric)"
                   % ("read under the locks that the loop holds (the comparison found uses lengths obtained before the locks were taken: a concurrent push makes them stale and the loop indexes past the shorter list)" if stale else ""))
+    # the element loop may be an iterator adaptor with a closure (`(0..len).all(|i| eq_fn(this.get(i), other.get(i)))`): the adaptor
+    # call then plays the part of the loop header, and the lists the closure captures are the lists it walks
+    for cb_, t in mir.calls(b):
+        for a_ in t["args"]:
+            if not mir.is_place_op(a_):
+                continue
+            cds = [d for d in defs.whole_defs(a_[1][0]) if d[2] == "assign" and d[3]["rv"]["k"] == "agg" and d[3]["rv"].get("ak") == "closure"]
+            if not cds:
+                continue
+            cbody = F.body(cds[0][3]["rv"].get("def") or "")
+            if cbody is None or not cbody.mir:
+                continue
+            if not any(tc["k"] == "call" and ("ind" in tc["f"] or (hir.last(mir.callee_def(tc) or "") == "get" and "value::list" in (mir.callee(tc) or ""))) for tc in (blk["term"] for blk in cbody.blocks)):
+                continue
+            roots_ = set()
+            for o in cds[0][3]["rv"].get("ops") or []:
+                roots_ |= D(o)
+            if len(roots_ & {"arg1", "arg2"}) < 2:
+                r.inst("element closure over one list (self comparison)", {"adaptor_bb": cb_, "roots": sorted(roots_)})
+                continue
+            n += 1
+            ok = any(g in dom[cb_] for g in gates)
+            r.inst("element loop #%d (closure given to %s)" % (n, hir.last(mir.callee_def(t) or "")), {"adaptor_bb": cb_, "length_gates": gates, "gated": ok})
+            if not ok:
+                r.bad(fn, "element loop not behind a length comparison", relfile(b.file), t.get("line", b.line),
+                      "the elements are compared without a preceding comparison of the two lengths %s: a list that is a proper prefix of the other compares equal (and `==` is no longer symmetric)"
+                      % ("read under the locks that the loop holds" if stale else ""))
     if n == 0:
         r.missing("element comparison loop in " + fn)
     return r
@@ -576,6 +603,16 @@ def rule_m10(F):
                 cmp_blocks.add(bi)
             elif hir.last(d) in ("eq", "ne") and any(mir.is_place_op(a) and (mir.back_calls(b, defs, a[1][0]) & raw) for a in t["args"]):
                 cmp_blocks.add(bi)
+        # the comparison may be made by a closure handed to an iterator adaptor (`(0..len).all(|i| eq_fn(..))`)
+        for bi, t in mir.calls(b):
+            for a in t["args"]:
+                if not mir.is_place_op(a):
+                    continue
+                for d_ in defs.whole_defs(a[1][0]):
+                    if d_[2] == "assign" and d_[3]["rv"]["k"] == "agg" and d_[3]["rv"].get("ak") == "closure":
+                        cb_ = F.body(d_[3]["rv"].get("def") or "")
+                        if cb_ is not None and cb_.mir and any(blk["term"]["k"] == "call" and "ind" in blk["term"]["f"] for blk in cb_.blocks):
+                            cmp_blocks.add(bi)
         gate = set(cmp_blocks)
         for h, nodes in loops:
             if nodes & cmp_blocks:
